@@ -70,7 +70,7 @@ PROPS = {
                   'fact_balance_sites', 'fact_refund_mints', 'fact_refund_burnt_from_collector'],
         engines=[dict(name='block', test='TestEngineBlock', quick=500, thorough=6000, thorough_seeds=3),
                  dict(name='statedb', test='TestEngineStatedb', quick=3000, thorough=60000, thorough_seeds=2),
-                 dict(name='geth', test='TestEngineGeth', quick=300, thorough=4000, thorough_seeds=2, no_model=True)],
+                 dict(name='geth', test='TestEngineGeth', quick=800, thorough=6000, thorough_seeds=2, no_model=True)],
         rule=BLOCK_RULE, assumptions=BLOCK_ASSUME + ['bank keeps supply = sum of balances (x/bank invariant, trusted); per-tx supply and balance deltas are reconstructed from the bank events of each ExecTxResult'],
     ),
     'C05': dict(
@@ -241,7 +241,7 @@ PROPS['C02'] = dict(
     theorems=['C02_setNonce_sim', 'C02_setCode_sim', 'C02_setState_sim', 'C02_addBalance_sim', 'C02_subBalance_sim',
               'C02_diff_zero_credit_creates_nothing', 'C02_diff_storage_only_not_empty', 'C02_zero_address_warm', 'C03_revert_exact',
               'nonceOf_ensureAcc', 'fact_fork_write_primitives', 'fact_fork_precompile_list_zero_prefixed', 'fact_refund_quotients', 'fact_refund_quotient'],
-    engines=[dict(name='geth', test='TestEngineGeth', quick=300, thorough=6000, thorough_seeds=3, no_model=True),
+    engines=[dict(name='geth', test='TestEngineGeth', quick=800, thorough=8000, thorough_seeds=3, no_model=True),
              dict(name='statedb', test='TestEngineStatedb', quick=3000, thorough=60000, thorough_seeds=2)],
     rule=GETH_RULE,
     assumptions=['PARTIAL: the theorems cover the StateDB write primitives (simulation of a value-semantic reference) and snapshot/revert; that equal behaviour at the vm.StateDB interface gives equal executions rests on the interpreter being the same compiled code on both sides (trusted base item 5); the interpreter, gas tables and native precompiles are not modelled',
